@@ -132,7 +132,7 @@ fn main() {
             sink.finish(props::link::RULE_C02, serde_json::json!({}));
         }
         "C09" => {
-            let mut sink = cases::CaseSink::new("C09", "Model.End Corr.LinkCorr Corr.BinCorr Model.BinaryStart Corr.C09", &opts.out, 100);
+            let mut sink = cases::CaseSink::new("C09", "Model.End Corr.LinkCorr Corr.BinCorr Model.BinaryStart Model.Route Corr.RouteCorr Corr.C09", &opts.out, 100);
             props::c09::generate(&opts, &mut sink);
             sink.finish(props::c09::RULE, serde_json::json!({}));
         }
